@@ -332,6 +332,7 @@ Proof.
 Qed.
 
 Definition par (o : option nid) : list nid := match o with Some l => [l] | None => [] end.
+Definition is_some (o : option nid) : bool := match o with Some _ => true | None => false end.
 
 (* the possible effects of one step on a well-formed state *)
 Inductive shape (s : state) : step -> state -> Prop :=
@@ -340,23 +341,37 @@ Inductive shape (s : state) : step -> state -> Prop :=
     nth_error (clones s) c = Some cl ->
     shape s (Commit c k v)
       (set_clone (add_node s (mkNode (par (local cl)) (upsert k v (map_of (store_of s) (local cl)))))
-                 c (mkClone (Some (length (store_of s))) (tracking cl)))
+                 c (mkClone (Some (length (store_of s))) (tracking cl) (pending cl)))
 | sh_fetch : forall c cl r,
     nth_error (clones s) c = Some cl -> remote s = Some r ->
-    shape s (FetchTracking c) (set_clone s c (mkClone (local cl) (Some r)))
+    shape s (FetchTracking c) (set_clone s c (mkClone (local cl) (Some r) (pending cl)))
+| sh_test : forall c cl,
+    nth_error (clones s) c = Some cl ->
+    shape s (TestLocal c) (set_clone s c (mkClone (local cl) (tracking cl) (Some (is_some (local cl)))))
+| sh_clear : forall c cl,
+    nth_error (clones s) c = Some cl -> tracking cl = None ->
+    shape s (MergeLocal c) (set_clone s c (mkClone (local cl) None None))
 | sh_copy : forall c cl t,
     nth_error (clones s) c = Some cl -> tracking cl = Some t -> local cl = None ->
-    shape s (MergeLocal c) (set_clone s c (mkClone (Some t) (Some t)))
+    shape s (MergeLocal c) (set_clone s c (mkClone (Some t) (Some t) None))
+| sh_overwrite : forall c cl t l,
+    nth_error (clones s) c = Some cl -> tracking cl = Some t -> local cl = Some l ->
+    pending cl = Some false ->
+    shape s (MergeLocal c) (set_clone s c (mkClone (Some t) (Some t) None))
+| sh_keep : forall c cl l t,
+    nth_error (clones s) c = Some cl -> tracking cl = Some t -> local cl = Some l ->
+    anc (length (store_of s)) (store_of s) t l = Yes ->
+    shape s (MergeLocal c) (set_clone s c (mkClone (Some l) (Some t) None))
 | sh_ff : forall c cl l t,
     nth_error (clones s) c = Some cl -> tracking cl = Some t -> local cl = Some l ->
     anc (length (store_of s)) (store_of s) l t = Yes ->
-    shape s (MergeLocal c) (set_clone s c (mkClone (Some t) (Some t)))
+    shape s (MergeLocal c) (set_clone s c (mkClone (Some t) (Some t) None))
 | sh_merge : forall c cl l t bm,
     nth_error (clones s) c = Some cl -> tracking cl = Some t -> local cl = Some l ->
     sub_keys bm (map_at (store_of s) l) -> sub_keys bm (map_at (store_of s) t) ->
     shape s (MergeLocal c)
       (set_clone (add_node s (mkNode [l; t] (merge_map bm (map_at (store_of s) l) (map_at (store_of s) t))))
-                 c (mkClone (Some (length (store_of s))) (Some t)))
+                 c (mkClone (Some (length (store_of s))) (Some t) None))
 | sh_push : forall c cl l,
     nth_error (clones s) c = Some cl -> local cl = Some l ->
     (remote s = None \/ exists r, remote s = Some r /\ anc (length (store_of s)) (store_of s) r l = Yes) ->
@@ -364,22 +379,29 @@ Inductive shape (s : state) : step -> state -> Prop :=
 
 Lemma exec_shape : forall s x, wf s -> shape s x (exec s x).
 Proof.
-  intros s x (Hst & Hcl & Hrm & Hfo). destruct x as [c k v|c|c|c]; cbn [exec].
+  intros s x (Hst & Hcl & Hrm & Hfo). destruct x as [c k v|c|c|c|c]; cbn [exec].
   - destruct (nth_error (clones s) c) as [cl|] eqn:Hc; [|constructor].
     replace (match local cl with Some l => [l] | None => [] end) with (par (local cl)) by reflexivity.
     now apply sh_commit.
   - destruct (nth_error (clones s) c) as [cl|] eqn:Hc; [|constructor].
     destruct (remote s) as [r|] eqn:Hr; [|constructor]. now apply sh_fetch.
   - destruct (nth_error (clones s) c) as [cl|] eqn:Hc; [|constructor].
-    destruct (tracking cl) as [t|] eqn:Ht; [|constructor].
-    destruct (local cl) as [l|] eqn:Hl; [|eapply sh_copy; eauto].
-    destruct (Hcl c cl Hc) as [Vl Vt]. rewrite Hl in Vl. rewrite Ht in Vt. cbn [valid_ref] in Vl, Vt.
-    pose proof (merge_local_spec (store_of s) l t Hst Vl Vt) as M.
-    destruct (merge_local (store_of s) l t) as [| |nd|].
-    + constructor.
-    + eapply sh_ff; eauto.
-    + destruct M as [bm [-> [M1 M2]]]. eapply sh_merge; eauto.
-    + contradiction.
+    replace (match local cl with Some _ => true | None => false end) with (is_some (local cl)) by reflexivity.
+    now apply sh_test.
+  - destruct (nth_error (clones s) c) as [cl|] eqn:Hc; [|constructor].
+    destruct (pending cl) as [saw|] eqn:Hp; [|constructor].
+    destruct (tracking cl) as [t|] eqn:Ht; [|now apply sh_clear].
+    destruct (Hcl c cl Hc) as [Vl Vt]. rewrite Ht in Vt. cbn [valid_ref] in Vt.
+    destruct saw.
+    + destruct (local cl) as [l|] eqn:Hl; [|eapply sh_copy; eauto].
+      cbn [valid_ref] in Vl.
+      pose proof (merge_local_spec (store_of s) l t Hst Vl Vt) as M.
+      destruct (merge_local (store_of s) l t) as [| |nd|].
+      * eapply sh_keep; eauto.
+      * eapply sh_ff; eauto.
+      * destruct M as [bm [-> [M1 M2]]]. eapply sh_merge; eauto.
+      * contradiction.
+    + destruct (local cl) as [l|] eqn:Hl; [eapply sh_overwrite; eauto|eapply sh_copy; eauto].
   - unfold push_outcome. destruct (nth_error (clones s) c) as [cl|] eqn:Hc; [|constructor].
     destruct (local cl) as [l|] eqn:Hl; [|constructor].
     destruct (remote s) as [r|] eqn:Hr.
@@ -392,7 +414,8 @@ Proof.
 Qed.
 
 Ltac shape_cases Sh :=
-  destruct Sh as [x | c k v cl Hc | c cl r Hc Hr | c cl t Hc Ht Hl | c cl l t Hc Ht Hl Ha
+  destruct Sh as [x | c k v cl Hc | c cl r Hc Hr | c cl Hc | c cl Hc Ht | c cl t Hc Ht Hl
+                 | c cl t l Hc Ht Hl Hpd | c cl l t Hc Ht Hl Ha | c cl l t Hc Ht Hl Ha
                  | c cl l t bm Hc Ht Hl B1 B2 | c cl l Hc Hl Hp].
 
 Lemma wf_shape : forall s x s', wf s -> shape s x s' -> wf s'.
@@ -410,7 +433,13 @@ Proof.
     + now apply valid_ref_snoc.
   - split; [|split; [|split]]; auto.
     apply clones_valid_set; cbn [local tracking]; auto. now rewrite Hr in Hrm.
+  - split; [|split; [|split]]; auto. apply clones_valid_set; cbn [local tracking]; auto.
+  - split; [|split; [|split]]; auto. apply clones_valid_set; cbn [local tracking valid_ref]; auto.
   - rewrite Ht in Vt. split; [|split; [|split]]; auto.
+    apply clones_valid_set; cbn [local tracking]; auto.
+  - rewrite Ht in Vt. split; [|split; [|split]]; auto.
+    apply clones_valid_set; cbn [local tracking]; auto.
+  - rewrite Ht in Vt. rewrite Hl in Vl. split; [|split; [|split]]; auto.
     apply clones_valid_set; cbn [local tracking]; auto.
   - rewrite Ht in Vt. split; [|split; [|split]]; auto.
     apply clones_valid_set; cbn [local tracking]; auto.
@@ -436,13 +465,20 @@ Proof. induction q; intros s H; cbn [run fold_left]; auto. apply IHq. now apply 
 Lemma run_app : forall a b s, run s (a ++ b) = run (run s a) b.
 Proof. intros. unfold run. apply fold_left_app. Qed.
 
+Lemma clones_length_shape : forall s x s', shape s x s' -> length (clones s') = length (clones s).
+Proof.
+  intros s x s' Sh. shape_cases Sh; auto; cbn [set_clone add_node set_remote clones]; apply set_nth_length.
+Qed.
+
 Lemma clones_length_exec : forall s x, length (clones (exec s x)) = length (clones s).
 Proof.
-  intros s x. destruct x as [c k v|c|c|c]; cbn [exec].
+  intros s x. destruct x as [c k v|c|c|c|c]; cbn [exec].
   - destruct (nth_error (clones s) c); auto. cbn [set_clone add_node clones]. apply set_nth_length.
   - destruct (nth_error (clones s) c); auto. destruct (remote s); auto. apply set_nth_length.
-  - destruct (nth_error (clones s) c) as [cl|]; auto. destruct (tracking cl); auto.
-    destruct (local cl). 2: apply set_nth_length.
+  - destruct (nth_error (clones s) c); auto. apply set_nth_length.
+  - destruct (nth_error (clones s) c) as [cl|]; auto. destruct (pending cl) as [saw|]; auto.
+    destruct (tracking cl). 2: apply set_nth_length.
+    destruct (if saw then local cl else None). 2: apply set_nth_length.
     destruct (merge_local _ _ _); auto; apply set_nth_length.
   - destruct (push_outcome s c); auto; destruct (nth_error (clones s) c); auto.
 Qed.
@@ -453,6 +489,53 @@ Proof. induction q; intros; cbn [run fold_left]; auto. fold (run (exec s a) q). 
 Lemma clones_length_init : forall n, length (clones (init n)) = n.
 Proof. intro. cbn. apply repeat_length. Qed.
 
+(* ================================================================== the copy window *)
+(* a pending test that saw no notes ref is still right: nothing was committed in the clone since *)
+Definition pend_inv (s : state) : Prop :=
+  forall c cl, nth_error (clones s) c = Some cl -> pending cl = Some false -> local cl = None.
+
+Lemma pend_inv_shape : forall s x s', shape s x s' -> guard s x = true -> pend_inv s -> pend_inv s'.
+Proof.
+  intros s x s' Sh G Inv.
+  shape_cases Sh; auto; unfold pend_inv; cbn [set_clone add_node set_remote clones]; intros c0 cl0 H0 P0;
+    try (apply nth_set_cases in H0 as [[_ ->]|[_ H0]]; [cbn [pending local] in *|eauto]);
+    try discriminate; eauto.
+  - cbn [guard] in G. unfold pending_of in G. rewrite Hc, P0 in G. discriminate.
+  - destruct (local cl); [discriminate|reflexivity].
+Qed.
+
+Lemma guarded_app : forall a b s, guarded s (a ++ b) = guarded s a && guarded (run s a) b.
+Proof.
+  induction a as [|x a IH]; intros b s; cbn [app guarded run fold_left]; auto.
+  fold (run (exec s x) a). rewrite IH. now rewrite andb_assoc.
+Qed.
+
+Lemma guarded_no_commit : forall q s, no_commit q = true -> guarded s q = true.
+Proof.
+  induction q as [|x q IH]; intros s H; auto. cbn [no_commit forallb] in H.
+  apply andb_true_iff in H as [H1 H2]. cbn [guarded]. rewrite IH; auto.
+  destruct x; cbn in H1; try discriminate; reflexivity.
+Qed.
+
+Definition good (s : state) : Prop := wf s /\ pend_inv s.
+
+Lemma good_init : forall n, good (init n).
+Proof.
+  intro n. split; [apply wf_init|]. intros c cl H. cbn in H.
+  apply nth_error_In in H. apply repeat_spec in H. subst. reflexivity.
+Qed.
+
+Lemma good_exec : forall s x, good s -> guard s x = true -> good (exec s x).
+Proof.
+  intros s x [W P] G. split; [now apply wf_exec|].
+  eapply pend_inv_shape; eauto. now apply exec_shape.
+Qed.
+
+Lemma good_run : forall q s, good s -> guarded s q = true -> good (run s q).
+Proof.
+  induction q as [|x q IH]; intros s H G; auto. cbn [guarded] in G.
+  apply andb_true_iff in G as [G1 G2]. cbn [run fold_left]. apply IH; auto. now apply good_exec.
+Qed.
 (* ================================================================== no value is invented *)
 Definition node_written (n : nat) (h : list step) (st : store) : Prop :=
   forall i nd k v, nth_error st i = Some nd -> lookup k (notes nd) = Some v -> written n h k v.
@@ -505,6 +588,7 @@ Proof.
     + now rewrite clones_length_run, clones_length_init.
 Qed.
 
+
 (* ================================================================== keys only grow *)
 Lemma local_of_valid : forall s c, wf s -> valid_ref (store_of s) (local_of s c).
 Proof.
@@ -531,30 +615,28 @@ Proof.
   - apply Nat.eqb_neq in E. now rewrite nth_set_other.
 Qed.
 
-Lemma local_mono_shape : forall s x s' c', wf s -> shape s x s' -> sub_keys (local_map s c') (local_map s' c').
+(* outside the copy window a clone's keys never disappear *)
+Lemma local_mono_shape : forall s x s' c', good s -> shape s x s' -> sub_keys (local_map s c') (local_map s' c').
 Proof.
-  intros s x s' c' Hwf Sh. pose proof Hwf as (Hst & Hcl & Hrm & Hfo).
+  intros s x s' c' [Hwf Pinv] Sh. pose proof Hwf as (Hst & Hcl & Hrm & Hfo).
   pose proof (local_of_valid s c' Hwf) as Vc'.
   unfold local_map.
   shape_cases Sh; try apply sub_keys_refl;
     assert (Lc : c < length (clones s)) by (apply nth_error_Some; congruence);
     unfold set_clone, add_node, set_remote; cbn [store_of clones remote fuel_out];
-    try rewrite local_of_set by auto.
-  - destruct (Nat.eqb c c') eqn:E.
-    + apply Nat.eqb_eq in E. subst c'. unfold local_of at 1. rewrite Hc. cbn [local map_of].
-      rewrite map_at_snoc_eq. cbn [notes]. apply sub_keys_upsert.
-    + rewrite map_of_snoc; auto. apply sub_keys_refl.
-  - destruct (Nat.eqb c c') eqn:E; [|apply sub_keys_refl].
-    apply Nat.eqb_eq in E. subst c'. unfold local_of. rewrite Hc. cbn [local]. apply sub_keys_refl.
-  - destruct (Nat.eqb c c') eqn:E; [|apply sub_keys_refl].
-    apply Nat.eqb_eq in E. subst c'. unfold local_of. rewrite Hc, Hl. apply sub_keys_nil.
-  - destruct (Nat.eqb c c') eqn:E; [|apply sub_keys_refl].
-    apply Nat.eqb_eq in E. subst c'. unfold local_of. rewrite Hc, Hl. cbn [local map_of].
-    apply reach_keys; auto. eapply anc_sound; eauto.
-  - destruct (Nat.eqb c c') eqn:E.
-    + apply Nat.eqb_eq in E. subst c'. unfold local_of at 1. rewrite Hc, Hl. cbn [local map_of].
-      rewrite map_at_snoc_eq. cbn [notes]. now destruct (merge_keys _ _ _ B1 B2).
-    + rewrite map_of_snoc; auto. apply sub_keys_refl.
+    try rewrite local_of_set by auto;
+    (destruct (Nat.eqb c c') eqn:E;
+     [apply Nat.eqb_eq in E; subst c'; unfold local_of at 1; rewrite Hc; cbn [local map_of]
+     |try (rewrite map_of_snoc by auto); apply sub_keys_refl]).
+  - rewrite map_at_snoc_eq. cbn [notes]. apply sub_keys_upsert.
+  - apply sub_keys_refl.
+  - apply sub_keys_refl.
+  - apply sub_keys_refl.
+  - rewrite Hl. apply sub_keys_nil.
+  - rewrite (Pinv c cl Hc Hpd) in Hl. discriminate.
+  - rewrite Hl. apply sub_keys_refl.
+  - rewrite Hl. cbn [map_of]. apply reach_keys; auto. eapply anc_sound; eauto.
+  - rewrite Hl. cbn [map_of]. rewrite map_at_snoc_eq. cbn [notes]. now destruct (merge_keys _ _ _ B1 B2).
 Qed.
 
 Lemma remote_mono_run : forall q s, wf s -> sub_keys (remote_map s) (remote_map (run s q)).
@@ -565,12 +647,14 @@ Proof.
   - apply IH. now apply wf_exec.
 Qed.
 
-Lemma local_mono_run : forall q s c, wf s -> sub_keys (local_map s c) (local_map (run s q) c).
+Lemma local_mono_run : forall q s c, good s -> guarded s q = true ->
+  sub_keys (local_map s c) (local_map (run s q) c).
 Proof.
-  induction q as [|x q IH]; intros s c H; cbn [run fold_left]; [apply sub_keys_refl|].
+  induction q as [|x q IH]; intros s c H G; cbn [run fold_left]; [apply sub_keys_refl|].
+  cbn [guarded] in G. apply andb_true_iff in G as [G1 G2].
   fold (run (exec s x) q). eapply sub_keys_trans.
-  - eapply local_mono_shape; eauto. now apply exec_shape.
-  - apply IH. now apply wf_exec.
+  - eapply local_mono_shape; eauto. apply exec_shape, H.
+  - apply IH; auto. now apply good_exec.
 Qed.
 
 (* ================================================================== single writer *)
@@ -590,13 +674,14 @@ Lemma sw_unique : forall h c k v c' w,
   NoDup (commit_keys h) -> In (Commit c k v) h -> In (Commit c' k w) h -> c = c' /\ v = w.
 Proof.
   induction h as [|x h IH]; intros c k v c' w ND H1 H2; [contradiction|].
-  destruct x as [c0 k0 v0|c0|c0|c0]; cbn [commit_keys] in ND.
+  destruct x as [c0 k0 v0|c0|c0|c0|c0]; cbn [commit_keys] in ND.
   - inversion ND as [|? ? Hnot ND']. subst.
     destruct H1 as [E1|H1]; destruct H2 as [E2|H2].
     + inversion E1. inversion E2. subst. auto.
     + inversion E1. subst. exfalso. apply Hnot. eapply in_commit_keys; eauto.
     + inversion E2. subst. exfalso. apply Hnot. eapply in_commit_keys; eauto.
     + eapply IH; eauto.
+  - destruct H1 as [E|H1]; [discriminate|]. destruct H2 as [E|H2]; [discriminate|]. eapply IH; eauto.
   - destruct H1 as [E|H1]; [discriminate|]. destruct H2 as [E|H2]; [discriminate|]. eapply IH; eauto.
   - destruct H1 as [E|H1]; [discriminate|]. destruct H2 as [E|H2]; [discriminate|]. eapply IH; eauto.
   - destruct H1 as [E|H1]; [discriminate|]. destruct H2 as [E|H2]; [discriminate|]. eapply IH; eauto.
@@ -611,7 +696,7 @@ Proof.
   induction h as [|x h IH]; intros k v H; cbn [writes] in H; [discriminate|].
   assert (T : written n h k v -> written n (x :: h) k v).
   { intros [c [Hc Hi]]. exists c. split; auto. now right. }
-  destruct x as [c0 k0 v0|c0|c0|c0]; auto.
+  destruct x as [c0 k0 v0|c0|c0|c0|c0]; auto.
   destruct (Nat.ltb c0 n) eqn:L; auto. cbn [lookup] in H.
   destruct (N.eqb k0 k) eqn:E; auto. apply N.eqb_eq in E. inversion H. subst.
   exists c0. split; [now apply Nat.ltb_lt|now left].
@@ -621,7 +706,7 @@ Lemma written_writes : forall n h k v,
   single_writer_per_key h -> written n h k v -> lookup k (writes n h) = Some v.
 Proof.
   unfold single_writer_per_key. induction h as [|x h IH]; intros k v SW [c [Hc Hi]]; [contradiction|].
-  destruct x as [c0 k0 v0|c0|c0|c0]; cbn [writes commit_keys] in *.
+  destruct x as [c0 k0 v0|c0|c0|c0|c0]; cbn [writes commit_keys] in *.
   - inversion SW as [|? ? Hnot SW']. subst.
     destruct Hi as [E|Hi].
     + inversion E. subst. apply Nat.ltb_lt in Hc. rewrite Hc. cbn [lookup]. now rewrite N.eqb_refl.
@@ -629,6 +714,7 @@ Proof.
       assert (R : lookup k (writes n h) = Some v) by (apply IH; auto; exists c; auto).
       destruct (Nat.ltb c0 n); auto. cbn [lookup]. destruct (N.eqb k0 k) eqn:E; auto.
       apply N.eqb_eq in E. contradiction.
+  - destruct Hi as [E|Hi]; [discriminate|]. apply IH; auto. exists c; auto.
   - destruct Hi as [E|Hi]; [discriminate|]. apply IH; auto. exists c; auto.
   - destruct Hi as [E|Hi]; [discriminate|]. apply IH; auto. exists c; auto.
   - destruct Hi as [E|Hi]; [discriminate|]. apply IH; auto. exists c; auto.
@@ -682,21 +768,31 @@ Proof.
 Qed.
 
 (* every clone's refs/notes/ai holds what the clone wrote *)
-Lemma own_writes_run : forall n q, single_writer_per_key q ->
+Lemma S0_app : forall n a b, S0 n (a ++ b) = run (S0 n a) b.
+Proof. intros. unfold S0. apply run_app. Qed.
+
+Lemma good_S0 : forall n q, guarded (init n) q = true -> good (S0 n q).
+Proof. intros. apply good_run; auto. apply good_init. Qed.
+
+Lemma guarded_S0_app : forall n a b,
+  guarded (init n) (a ++ b) = true <-> guarded (init n) a = true /\ guarded (S0 n a) b = true.
+Proof. intros. rewrite guarded_app. apply andb_true_iff. Qed.
+
+Lemma own_writes_run : forall n q, single_writer_per_key q -> guarded (init n) q = true ->
   forall c k v, c < n -> In (Commit c k v) q -> lookup k (local_map (S0 n q) c) = Some v.
 Proof.
-  intros n q. induction q as [|x q IH] using rev_ind; intros SW c k v Hc Hi; [contradiction|].
+  intros n q. induction q as [|x q IH] using rev_ind; intros SW G c k v Hc Hi; [contradiction|].
   pose proof (sw_prefix _ _ SW) as SWq.
-  unfold S0. rewrite run_app. cbn [run fold_left]. fold (run (init n) q). fold (S0 n q).
-  pose proof (wf_S0 n q) as Hwf. pose proof (exec_shape _ x Hwf) as Sh.
+  apply guarded_S0_app in G as [Gq Gx]. cbn [guarded] in Gx. apply andb_true_iff in Gx as [Gx _].
+  rewrite S0_app. cbn [run fold_left].
+  pose proof (good_S0 n q Gq) as Hg. pose proof (exec_shape _ x (proj1 Hg)) as Sh.
   assert (Val : forall v', lookup k (local_map (exec (S0 n q) x) c) = Some v' -> v' = v).
   { intros v' Hv. assert (W : written n (q ++ [x]) k v').
-    { replace (exec (S0 n q) x) with (S0 n (q ++ [x])) in Hv
-        by (unfold S0; rewrite run_app; reflexivity).
+    { replace (exec (S0 n q) x) with (S0 n (q ++ [x])) in Hv by (rewrite S0_app; reflexivity).
       unfold local_map in Hv. eapply held_written; eauto. }
     apply (written_unique n (q ++ [x]) k v' v SW W). exists c. split; auto. }
   apply in_app_or in Hi as [Hi|[Hi|[]]].
-  - specialize (IH SWq c k v Hc Hi).
+  - specialize (IH SWq Gq c k v Hc Hi).
     assert (HK : has_key k (local_map (exec (S0 n q) x) c) = true).
     { eapply local_mono_shape; eauto. unfold has_key. now rewrite IH. }
     apply has_key_lookup in HK as [v' Hv']. rewrite Hv'. f_equal. auto.
@@ -708,53 +804,89 @@ Proof.
 Qed.
 
 (* ================================================================== blocks *)
+(* the order of the sub-steps, from Gen/GenSync.v: these equations stop holding when the source
+   reorders the existence test and the fetch *)
+Lemma PushNotes_eq : forall c, PushNotes c = [FetchTracking c; TestLocal c; MergeLocal c; PushRef c].
+Proof. reflexivity. Qed.
+Lemma FetchNotes_eq : forall c, FetchNotes c = [FetchTracking c; TestLocal c; MergeLocal c].
+Proof. reflexivity. Qed.
+Lemma PushNotes_commit_on_wire_eq : forall c k v,
+  PushNotes_commit_on_wire c k v = [Commit c k v; FetchTracking c; TestLocal c; MergeLocal c; PushRef c].
+Proof. reflexivity. Qed.
+Lemma PushNotes_commit_after_fetch_eq : forall c k v,
+  PushNotes_commit_after_fetch c k v = [FetchTracking c; Commit c k v; TestLocal c; MergeLocal c; PushRef c].
+Proof. reflexivity. Qed.
+Lemma FetchNotes_commit_on_wire_eq : forall c k v,
+  FetchNotes_commit_on_wire c k v = [Commit c k v; FetchTracking c; TestLocal c; MergeLocal c].
+Proof. reflexivity. Qed.
+Lemma FetchNotes_commit_after_fetch_eq : forall c k v,
+  FetchNotes_commit_after_fetch c k v = [FetchTracking c; Commit c k v; TestLocal c; MergeLocal c].
+Proof. reflexivity. Qed.
+
 Lemma remote_MergeLocal : forall s c, remote (exec s (MergeLocal c)) = remote s.
 Proof.
   intros. cbn [exec]. destruct (nth_error (clones s) c) as [cl|]; auto.
-  destruct (tracking cl); auto. destruct (local cl); auto. destruct (merge_local _ _ _); auto.
+  destruct (pending cl) as [saw|]; auto. destruct (tracking cl); auto.
+  destruct (if saw then local cl else None); auto. destruct (merge_local _ _ _); auto.
 Qed.
+
+Lemma remote_TestLocal : forall s c, remote (exec s (TestLocal c)) = remote s.
+Proof. intros. cbn [exec]. destruct (nth_error (clones s) c); auto. Qed.
 
 Lemma nth_clone_set : forall s st' c cl r f, c < length (clones s) ->
   nth_error (clones (mkState st' (set_nth (clones s) c cl) r f)) c = Some cl.
 Proof. intros. cbn [clones]. now apply nth_set_same. Qed.
 
+(* the state after FetchTracking c; TestLocal c *)
+Lemma fetch_test : forall s c cl, c < length (clones s) -> nth_error (clones s) c = Some cl ->
+  exec (exec s (FetchTracking c)) (TestLocal c) =
+  set_clone s c (mkClone (local cl) (match remote s with Some r => Some r | None => tracking cl end)
+                         (Some (is_some (local cl)))).
+Proof.
+  intros s c cl Lc Hc. cbn [exec]. rewrite Hc. destruct (remote s) as [r|] eqn:Hr.
+  - unfold set_clone at 1. rewrite nth_clone_set by auto. unfold set_clone.
+    cbn [store_of clones remote fuel_out local tracking]. f_equal.
+    clear. revert c. induction (clones s) as [|y l IH]; intros [|c]; cbn [set_nth]; auto. now rewrite IH.
+  - rewrite Hc. destruct cl; reflexivity.
+Qed.
+
 (* after MergeLocal the local ref contains everything the tracking ref has *)
-Lemma merge_contains_tracking : forall s c cl t,
-  wf s -> nth_error (clones s) c = Some cl -> tracking cl = Some t ->
+Lemma merge_contains_tracking : forall s c cl t b,
+  wf s -> nth_error (clones s) c = Some cl -> tracking cl = Some t -> pending cl = Some b ->
   sub_keys (map_at (store_of s) t) (local_map (exec s (MergeLocal c)) c).
 Proof.
-  intros s c cl t Hwf Hc Ht. pose proof Hwf as (Hst & Hcl & Hrm & Hfo).
+  intros s c cl t b Hwf Hc Ht Hp. pose proof Hwf as (Hst & Hcl & Hrm & Hfo).
   assert (Lc : c < length (clones s)) by (apply nth_error_Some; congruence).
   destruct (Hcl c cl Hc) as [Vl Vt]. rewrite Ht in Vt. cbn [valid_ref] in Vt.
-  cbn [exec]. rewrite Hc, Ht. destruct (local cl) as [l|] eqn:Hl.
-  - cbn [valid_ref] in Vl. pose proof (merge_local_spec _ l t Hst Vl Vt) as M.
-    destruct (merge_local (store_of s) l t) as [| |nd|]; try contradiction.
-    + unfold local_map, local_of. rewrite Hc, Hl. cbn [map_of].
-      apply reach_keys; auto. eapply anc_sound; eauto.
-    + unfold local_map, set_clone. cbn [store_of]. rewrite local_of_set by auto.
-      rewrite Nat.eqb_refl. cbn [local map_of]. apply sub_keys_refl.
-    + destruct M as [bm [-> [B1 B2]]]. unfold local_map, set_clone, add_node. cbn [store_of clones remote fuel_out].
-      rewrite local_of_set by auto. rewrite Nat.eqb_refl. cbn [local map_of].
-      rewrite map_at_snoc_eq. cbn [notes]. now destruct (merge_keys _ _ _ B1 B2).
+  assert (Copy : sub_keys (map_at (store_of s) t)
+                   (local_map (set_clone s c (mkClone (Some t) (Some t) None)) c)).
+  { unfold local_map, set_clone. cbn [store_of]. rewrite local_of_set by auto.
+    rewrite Nat.eqb_refl. cbn [local map_of]. apply sub_keys_refl. }
+  cbn [exec]. rewrite Hc, Hp, Ht. destruct b; [|exact Copy].
+  destruct (local cl) as [l|] eqn:Hl; [|exact Copy].
+  cbn [valid_ref] in Vl. pose proof (merge_local_spec _ l t Hst Vl Vt) as M.
+  destruct (merge_local (store_of s) l t) as [| |nd|]; try contradiction; try exact Copy.
   - unfold local_map, set_clone. cbn [store_of]. rewrite local_of_set by auto.
-    rewrite Nat.eqb_refl. cbn [local map_of]. apply sub_keys_refl.
+    rewrite Nat.eqb_refl. cbn [local map_of]. apply reach_keys; auto. eapply anc_sound; eauto.
+  - destruct M as [bm [-> [B1 B2]]]. unfold local_map, set_clone, add_node. cbn [store_of clones remote fuel_out].
+    rewrite local_of_set by auto. rewrite Nat.eqb_refl. cbn [local map_of].
+    rewrite map_at_snoc_eq. cbn [notes]. now destruct (merge_keys _ _ _ B1 B2).
 Qed.
 
 (* FetchNotes without interleaving: the clone then has every key of the remote *)
 Lemma fetch_block : forall s c, wf s -> c < length (clones s) ->
   sub_keys (remote_map s) (local_map (run s (FetchNotes c)) c).
 Proof.
-  intros s c Hwf Lc. unfold FetchNotes, run. cbn [fold_left].
+  intros s c Hwf Lc. rewrite FetchNotes_eq. unfold run. cbn [fold_left].
   destruct (nth_error (clones s) c) as [cl|] eqn:Hc.
   2: { apply nth_error_None in Hc. lia. }
+  assert (W2 : wf (exec (exec s (FetchTracking c)) (TestLocal c))) by (apply wf_exec, wf_exec, Hwf).
+  rewrite (fetch_test s c cl Lc Hc) in *.
   unfold remote_map. destruct (remote s) as [r|] eqn:Hr; [|apply sub_keys_nil].
-  assert (E1 : exec s (FetchTracking c) = set_clone s c (mkClone (local cl) (Some r))).
-  { cbn [exec]. now rewrite Hc, Hr. }
-  rewrite E1. cbn [map_of].
-  replace (store_of s) with (store_of (set_clone s c (mkClone (local cl) (Some r)))) by reflexivity.
-  eapply merge_contains_tracking with (cl := mkClone (local cl) (Some r)); auto.
-  - rewrite <- E1. now apply wf_exec.
-  - unfold set_clone. now apply nth_clone_set.
+  cbn [map_of].
+  apply (merge_contains_tracking _ c (mkClone (local cl) (Some r) (Some (is_some (local cl)))) r
+           (is_some (local cl)) W2); try reflexivity.
+  unfold set_clone. now apply nth_clone_set.
 Qed.
 
 Lemma exec_push_ok : forall s c cl l,
@@ -779,64 +911,65 @@ Qed.
 Lemma push_block : forall s c, wf s -> c < length (clones s) ->
   remote (run s (PushNotes c)) = local_of (run s (PushNotes c)) c.
 Proof.
-  intros s c Hwf Lc. unfold PushNotes, run. cbn [fold_left].
-  set (s1 := exec s (FetchTracking c)).
-  assert (W1 : wf s1) by (apply wf_exec; auto).
-  assert (L1 : c < length (clones s1)) by (unfold s1; rewrite clones_length_exec; auto).
-  assert (T1 : remote s1 = None \/ exists r cl, remote s1 = Some r /\ nth_error (clones s1) c = Some cl
-                                              /\ tracking cl = Some r).
-  { unfold s1. cbn [exec]. destruct (nth_error (clones s) c) as [cl|] eqn:Hc.
-    2: { apply nth_error_None in Hc. lia. }
-    destruct (remote s) as [r|] eqn:Hr; auto. right. exists r, (mkClone (local cl) (Some r)).
-    unfold set_clone. cbn [remote]. split; auto. split; auto. now apply nth_clone_set. }
-  clearbody s1. clear Hwf Lc s.
-  pose proof W1 as (Hst & Hcl & Hrm & Hfo).
-  destruct T1 as [Rn|[r [cl [Hr [Hc Ht]]]]].
-  - (* no notes ref on the remote: the push creates it *)
-    set (s2 := exec s1 (MergeLocal c)).
-    assert (L2 : c < length (clones s2)) by (unfold s2; rewrite clones_length_exec; auto).
-    assert (R2 : remote s2 = None) by (unfold s2; rewrite remote_MergeLocal; auto).
-    clearbody s2.
-    destruct (nth_error (clones s2) c) as [cl2|] eqn:Hc2.
-    2: { apply nth_error_None in Hc2. lia. }
-    destruct (local cl2) as [l|] eqn:Hl2.
-    + eapply push_after; eauto.
-    + cbn [exec]. unfold push_outcome. rewrite Hc2, Hl2. unfold local_of. now rewrite Hc2, Hl2.
-  - destruct (Hcl c cl Hc) as [Vl Vt]. rewrite Ht in Vt. cbn [valid_ref] in Vt.
-    assert (Copy : remote (exec (set_clone s1 c (mkClone (Some r) (Some r))) (PushRef c)) =
-                   local_of (exec (set_clone s1 c (mkClone (Some r) (Some r))) (PushRef c)) c).
-    { eapply push_after with (cl := mkClone (Some r) (Some r)) (l := r).
+  intros s c Hwf Lc. rewrite PushNotes_eq. unfold run. cbn [fold_left].
+  destruct (nth_error (clones s) c) as [cl|] eqn:Hc.
+  2: { apply nth_error_None in Hc. lia. }
+  assert (W2 : wf (exec (exec s (FetchTracking c)) (TestLocal c))) by (apply wf_exec, wf_exec, Hwf).
+  rewrite (fetch_test s c cl Lc Hc) in *.
+  set (CL := mkClone (local cl) (match remote s with Some r => Some r | None => tracking cl end)
+                     (Some (is_some (local cl)))) in *.
+  set (s2 := set_clone s c CL) in *.
+  assert (N2 : nth_error (clones s2) c = Some CL) by (unfold s2, set_clone; now apply nth_clone_set).
+  assert (L2 : c < length (clones s2)) by (apply nth_error_Some; congruence).
+  pose proof W2 as (Hst & Hcl & Hrm & Hfo).
+  destruct (remote s) as [r|] eqn:Hr.
+  - assert (R2 : remote s2 = Some r) by exact Hr.
+    destruct (Hcl c CL N2) as [Vl Vt]. cbn [CL local tracking valid_ref] in Vl, Vt.
+    assert (Copy : remote (exec (set_clone s2 c (mkClone (Some r) (Some r) None)) (PushRef c)) =
+                   local_of (exec (set_clone s2 c (mkClone (Some r) (Some r) None)) (PushRef c)) c).
+    { eapply push_after with (cl := mkClone (Some r) (Some r) None) (l := r).
       - unfold set_clone. now apply nth_clone_set.
       - reflexivity.
-      - right. exists r. split; [exact Hr|apply anc_refl]. }
-    cbn [exec]. rewrite Hc, Ht. destruct (local cl) as [l|] eqn:Hl; [|exact Copy].
+      - right. exists r. split; [exact R2|apply anc_refl]. }
+    cbn [exec]. rewrite N2. cbn [CL pending tracking local].
+    destruct (local cl) as [l|] eqn:Hl; cbn [is_some]; [|exact Copy].
     cbn [valid_ref] in Vl. pose proof (merge_local_spec _ l r Hst Vl Vt) as M.
-    destruct (merge_local (store_of s1) l r) as [| |nd|]; try contradiction.
-    + eapply push_after; eauto.
+    destruct (merge_local (store_of s2) l r) as [| |nd|]; try contradiction.
+    + eapply push_after with (cl := mkClone (Some l) (Some r) None) (l := l).
+      * unfold set_clone. now apply nth_clone_set.
+      * reflexivity.
+      * right. exists r. split; [exact R2|exact M].
     + exact Copy.
     + destruct M as [bm [-> _]].
-      eapply push_after with (cl := mkClone (Some (length (store_of s1))) (Some r)) (l := length (store_of s1)).
+      eapply push_after with (cl := mkClone (Some (length (store_of s2))) (Some r) None) (l := length (store_of s2)).
       * unfold set_clone, add_node. cbn [clones store_of remote fuel_out]. now apply nth_set_same.
       * reflexivity.
-      * right. exists r. split; [exact Hr|].
+      * right. exists r. split; [exact R2|].
         unfold set_clone, add_node. cbn [store_of]. rewrite app_length. cbn [length].
         rewrite Nat.add_1_r. cbn [anc].
-        assert (Ne : Nat.eqb r (length (store_of s1)) = false) by (apply Nat.eqb_neq; lia).
+        assert (Ne : Nat.eqb r (length (store_of s2)) = false) by (apply Nat.eqb_neq; lia).
         rewrite Ne, nth_error_snoc_eq. cbn [parents fold_right]. rewrite anc_refl.
         destruct (anc _ _ r l); reflexivity.
+  - (* no notes ref on the remote: the push creates it *)
+    set (s3 := exec s2 (MergeLocal c)).
+    assert (L3 : c < length (clones s3)) by (unfold s3; rewrite clones_length_exec; auto).
+    assert (R3 : remote s3 = None) by (unfold s3; rewrite remote_MergeLocal; exact Hr).
+    clearbody s3.
+    destruct (nth_error (clones s3) c) as [cl3|] eqn:Hc3.
+    2: { apply nth_error_None in Hc3. lia. }
+    destruct (local cl3) as [l|] eqn:Hl3.
+    + eapply push_after; eauto.
+    + cbn [exec]. unfold push_outcome. rewrite Hc3, Hl3. unfold local_of. now rewrite Hc3, Hl3.
 Qed.
 
-Lemma push_block_keys : forall s c, wf s -> c < length (clones s) ->
+Lemma push_block_keys : forall s c, good s -> c < length (clones s) ->
   sub_keys (local_map s c) (remote_map (run s (PushNotes c))).
 Proof.
-  intros s c Hwf Lc. unfold remote_map. rewrite push_block by auto.
-  apply (local_mono_run (PushNotes c) s c Hwf).
+  intros s c Hg Lc. unfold remote_map. rewrite push_block by (auto; apply Hg).
+  apply (local_mono_run (PushNotes c) s c Hg). apply guarded_no_commit. reflexivity.
 Qed.
 
 (* ================================================================== the property-level lemmas *)
-Lemma S0_app : forall n a b, S0 n (a ++ b) = run (S0 n a) b.
-Proof. intros. unfold S0. apply run_app. Qed.
-
 Lemma no_loss_values : forall n sched o k v,
   In o (holders (S0 n sched)) ->
   lookup k (map_of (store_of (S0 n sched)) o) = Some v -> written n sched k v.
@@ -847,8 +980,12 @@ Lemma no_loss_remote_keys : forall n pre post k,
 Proof. intros n pre post k H. rewrite S0_app. apply remote_mono_run; auto. apply wf_S0. Qed.
 
 Lemma no_loss_local_keys : forall n pre post c k,
+  guarded (init n) (pre ++ post) = true ->
   has_key k (local_map (S0 n pre) c) = true -> has_key k (local_map (S0 n (pre ++ post)) c) = true.
-Proof. intros n pre post c k H. rewrite S0_app. apply local_mono_run; auto. apply wf_S0. Qed.
+Proof.
+  intros n pre post c k G H. apply guarded_S0_app in G as [G1 G2].
+  rewrite S0_app. apply local_mono_run; auto. now apply good_S0.
+Qed.
 
 Lemma fuel_never_out : forall n sched, fuel_out (S0 n sched) = false.
 Proof. intros. now destruct (wf_S0 n sched) as (_ & _ & _ & H). Qed.
@@ -860,12 +997,13 @@ Proof. intros n sched o k v w SW H W. eapply written_unique; eauto. eapply held_
 
 Lemma push_atomic_succeeds : forall n pre c, c < n ->
   remote (S0 n (pre ++ PushNotes c)) = local_of (S0 n (pre ++ PushNotes c)) c /\
-  sub_keys (local_map (S0 n pre) c) (remote_map (S0 n (pre ++ PushNotes c))) /\
+  (guarded (init n) pre = true ->
+   sub_keys (local_map (S0 n pre) c) (remote_map (S0 n (pre ++ PushNotes c)))) /\
   sub_keys (remote_map (S0 n pre)) (remote_map (S0 n (pre ++ PushNotes c))).
 Proof.
   intros n pre c Hc. rewrite S0_app. split; [|split].
   - apply push_block; [apply wf_S0|now rewrite len_S0].
-  - apply push_block_keys; [apply wf_S0|now rewrite len_S0].
+  - intro G. apply push_block_keys; [now apply good_S0|now rewrite len_S0].
   - apply remote_mono_run. apply wf_S0.
 Qed.
 
@@ -886,14 +1024,19 @@ Proof.
     unfold has_key in Hall. rewrite E in Hall. discriminate.
 Qed.
 
+Lemma guarded_ext : forall n pre q, guarded (init n) pre = true -> no_commit q = true ->
+  guarded (init n) (pre ++ q) = true.
+Proof. intros. apply guarded_S0_app. split; auto. now apply guarded_no_commit. Qed.
+
 Lemma converge : forall n pre q1 q2,
-  single_writer_per_key pre -> no_commit q1 = true -> no_commit q2 = true ->
+  single_writer_per_key pre -> guarded (init n) pre = true ->
+  no_commit q1 = true -> no_commit q2 = true ->
   (forall c, c < n -> has_block (PushNotes c) q1) ->
   (forall c, c < n -> has_block (FetchNotes c) q2) ->
   same_map (remote_map (S0 n (pre ++ q1 ++ q2))) (writes n pre) /\
   forall c, c < n -> same_map (local_map (S0 n (pre ++ q1 ++ q2)) c) (writes n pre).
 Proof.
-  intros n pre q1 q2 SW NC1 NC2 HP HF.
+  intros n pre q1 q2 SW G NC1 NC2 HP HF.
   assert (NC : no_commit (q1 ++ q2) = true) by (apply no_commit_app; auto).
   (* A: after q1 the remote has every written key *)
   assert (A : forall c k v, c < n -> In (Commit c k v) pre ->
@@ -903,8 +1046,10 @@ Proof.
     replace (pre ++ x ++ PushNotes c ++ y) with (((pre ++ x) ++ PushNotes c) ++ y)
       by (now rewrite <- !app_assoc).
     apply no_loss_remote_keys.
-    destruct (push_atomic_succeeds n (pre ++ x) c Hc) as (_ & K & _). apply K.
-    unfold has_key. rewrite (own_writes_run n (pre ++ x) (sw_ext _ _ SW NCx) c k v Hc); auto.
+    destruct (push_atomic_succeeds n (pre ++ x) c Hc) as (_ & K & _).
+    apply K; [now apply guarded_ext|].
+    unfold has_key.
+    rewrite (own_writes_run n (pre ++ x) (sw_ext _ _ SW NCx) (guarded_ext _ _ _ G NCx) c k v Hc); auto.
     apply in_or_app. now left. }
   assert (B : forall c k v, c < n -> In (Commit c k v) pre ->
               has_key k (remote_map (S0 n (pre ++ q1 ++ q2))) = true).
@@ -912,11 +1057,13 @@ Proof.
   split.
   - unfold remote_map. apply same_as_writes; auto.
   - intros c Hc. unfold local_map. apply same_as_writes; auto.
-    intros c' k v Hc' Hi. destruct (HF c Hc) as [x [y ->]].
-    fold (local_map (S0 n (pre ++ q1 ++ x ++ FetchNotes c ++ y)) c).
-    replace (pre ++ q1 ++ x ++ FetchNotes c ++ y) with ((((pre ++ q1) ++ x) ++ FetchNotes c) ++ y)
+    intros c' k v Hc' Hi. destruct (HF c Hc) as [x [y Eq]].
+    fold (local_map (S0 n (pre ++ q1 ++ q2)) c).
+    assert (Gall : guarded (init n) (pre ++ q1 ++ q2) = true) by (now apply guarded_ext).
+    rewrite Eq in *.
+    replace (pre ++ q1 ++ x ++ FetchNotes c ++ y) with ((((pre ++ q1) ++ x) ++ FetchNotes c) ++ y) in *
       by (now rewrite <- !app_assoc).
-    apply no_loss_local_keys. rewrite S0_app.
+    apply no_loss_local_keys; auto. rewrite S0_app.
     apply fetch_block; [apply wf_S0|now rewrite len_S0|].
     apply no_loss_remote_keys. eauto.
 Qed.
@@ -936,11 +1083,11 @@ Proof.
 Qed.
 
 Lemma converge_sequential : forall n pre,
-  single_writer_per_key pre ->
+  single_writer_per_key pre -> guarded (init n) pre = true ->
   let s := S0 n (pre ++ flat_map PushNotes (seq 0 n) ++ flat_map FetchNotes (seq 0 n)) in
   same_map (remote_map s) (writes n pre) /\ forall c, c < n -> same_map (local_map s c) (writes n pre).
 Proof.
-  intros n pre SW. apply converge; auto.
+  intros n pre SW G. apply converge; auto.
   - apply no_commit_flat. reflexivity.
   - apply no_commit_flat. reflexivity.
   - intros. now apply has_block_flat.
@@ -954,11 +1101,10 @@ Lemma first_sync_clone : forall s c cl t,
 Proof.
   intros s c cl t Hc Hl Hr.
   assert (Lc : c < length (clones s)) by (apply nth_error_Some; congruence).
-  unfold FetchNotes, run. cbn [fold_left].
-  assert (E1 : exec s (FetchTracking c) = set_clone s c (mkClone None (Some t))).
-  { cbn [exec]. now rewrite Hc, Hr, Hl. }
-  rewrite E1. cbn [exec]. unfold set_clone at 1. rewrite nth_clone_set by auto.
-  cbn [tracking local]. unfold set_clone. cbn [clones]. unfold local_of. cbn [clones].
+  rewrite FetchNotes_eq. unfold run. cbn [fold_left].
+  rewrite (fetch_test s c cl Lc Hc), Hr, Hl. cbn [is_some exec].
+  unfold set_clone at 1. rewrite nth_clone_set by auto. cbn [pending tracking local].
+  unfold set_clone. cbn [clones store_of remote fuel_out]. unfold local_of. cbn [clones].
   now rewrite nth_set_same by (rewrite set_nth_length; auto).
 Qed.
 
@@ -974,16 +1120,10 @@ Definition trk_inv (s : state) : Prop :=
 Lemma trk_inv_shape : forall s x s', shape s x s' -> trk_inv s -> trk_inv s'.
 Proof.
   intros s x s' Sh Inv. shape_cases Sh; auto; unfold trk_inv;
-    cbn [set_clone add_node set_remote remote clones]; intros Hn c0 cl0 H0.
-  - apply nth_set_cases in H0 as [[_ ->]|[_ H0]]; cbn [tracking]; eauto.
-  - congruence.
-  - apply nth_set_cases in H0 as [[_ ->]|[_ H0]]; cbn [tracking]; eauto.
-    rewrite (Inv Hn c cl Hc) in Ht. discriminate.
-  - apply nth_set_cases in H0 as [[_ ->]|[_ H0]]; cbn [tracking]; eauto.
-    rewrite (Inv Hn c cl Hc) in Ht. discriminate.
-  - apply nth_set_cases in H0 as [[_ ->]|[_ H0]]; cbn [tracking]; eauto.
-    rewrite (Inv Hn c cl Hc) in Ht. discriminate.
-  - discriminate.
+    cbn [set_clone add_node set_remote remote clones]; intros Hn c0 cl0 H0;
+    try discriminate; try congruence;
+    (apply nth_set_cases in H0 as [[_ ->]|[_ H0]]; cbn [tracking]; eauto);
+    try (rewrite (Inv Hn c cl Hc) in Ht; discriminate).
 Qed.
 
 Lemma trk_inv_run : forall n q, trk_inv (S0 n q).
@@ -992,13 +1132,12 @@ Proof.
   - intros _ c cl H. cbn in H. apply nth_error_In in H. apply repeat_spec in H. now subst.
   - rewrite S0_app. cbn [run fold_left]. eapply trk_inv_shape; eauto. apply exec_shape, wf_S0.
 Qed.
-
 (* ------------------------------------------------------------------ witnesses (computed) *)
 Lemma race_needs_repush :
   Known_C10 race2 = true /\
   single_writer_per_key race2 /\
   fst (run_trace (init 2) race2)
-    = [None; None; None; None; None; None; Some PCreated; Some PRejected] /\
+    = [None; None; None; None; None; None; None; None; Some PCreated; Some PRejected] /\
   lookup 11%N (local_map (run (init 2) race2) 1) = Some 101%N /\
   lookup 11%N (remote_map (run (init 2) race2)) = None /\
   lookup 11%N (local_map (run (init 2) (race2 ++ FetchNotes 0 ++ FetchNotes 1)) 0) = None /\
@@ -1036,6 +1175,23 @@ Lemma ours_example :
   lookup 10%N (local_map (run (init 2) multi) 1) = Some 200%N.
 Proof. vm_compute. repeat split; reflexivity. Qed.
 
+
+
+(* K2: a commit of the same clone between the existence test and the copy is overwritten, and
+   lost for good *)
+Lemma copy_window_refuted :
+  no_commit_in_copy_window 2 window2 = false /\
+  single_writer_per_key window2 /\
+  lookup 11%N (local_map (run (init 2) window2) 1) = None /\
+  (let s := run (init 2) (window2 ++ flat_map PushNotes (seq 0 2) ++ flat_map FetchNotes (seq 0 2)) in
+   lookup 11%N (remote_map s) = None /\ lookup 11%N (local_map s 0) = None /\
+   lookup 11%N (local_map s 1) = None).
+Proof.
+  split; [vm_compute; reflexivity|]. split.
+  - unfold single_writer_per_key. cbn. repeat constructor; cbn; intuition discriminate.
+  - vm_compute. repeat split; reflexivity.
+Qed.
+
 (* ------------------------------------------------------------------ rejections only when pushes overlap *)
 Lemma fold_tri_yes_intro : forall (g : nid -> tri) l p,
   In p l -> g p = Yes -> fold_right (fun p acc => tri_or (g p) acc) No l = Yes.
@@ -1059,17 +1215,18 @@ Proof. intros st a b c H1 H2. induction H2; auto. eapply reach_step; eauto. Qed.
 
 Lemma remote_no_push : forall s x, is_push x = false -> remote (exec s x) = remote s.
 Proof.
-  intros s x H. destruct x as [c k v|c|c|c]; try discriminate.
+  intros s x H. destruct x as [c k v|c|c|c|c]; try discriminate.
   - cbn [exec]. destruct (nth_error (clones s) c); auto.
   - cbn [exec]. destruct (nth_error (clones s) c); auto. destruct (remote s) eqn:R; cbn [set_clone remote]; auto.
+  - apply remote_TestLocal.
   - apply remote_MergeLocal.
 Qed.
 
-(* a clone's notes tip only ever moves to a descendant *)
-Lemma local_reach_shape : forall s x s' c0 lo, wf s -> shape s x s' -> local_of s c0 = Some lo ->
+(* outside the copy window a clone's notes tip only ever moves to a descendant *)
+Lemma local_reach_shape : forall s x s' c0 lo, good s -> shape s x s' -> local_of s c0 = Some lo ->
   exists l', local_of s' c0 = Some l' /\ reach (store_of s') lo l'.
 Proof.
-  intros s x s' c0 lo Hwf Sh Hl0. pose proof Hwf as (Hst & Hcl & Hrm & Hfo).
+  intros s x s' c0 lo [Hwf Pinv] Sh Hl0. pose proof Hwf as (Hst & Hcl & Hrm & Hfo).
   shape_cases Sh; try (exists lo; split; [exact Hl0|constructor]);
     assert (Lc : c < length (clones s)) by (apply nth_error_Some; congruence);
     unfold set_clone, add_node; cbn [store_of clones remote fuel_out]; rewrite local_of_set by auto;
@@ -1079,7 +1236,11 @@ Proof.
   - exists (length (store_of s)). split; auto. rewrite Hl0. cbn [par].
     eapply reach_step; [apply nth_error_snoc_eq|cbn [parents]; now left|constructor].
   - exists lo. split; auto. constructor.
+  - exists lo. split; auto. constructor.
+  - exists lo. split; auto. constructor.
   - congruence.
+  - rewrite (Pinv c cl Hc Hpd) in Hl. discriminate.
+  - exists l. split; auto. replace lo with l by congruence. constructor.
   - exists t. split; auto. replace lo with l by congruence. eapply anc_sound; eauto.
   - exists (length (store_of s)). split; auto. replace lo with l by congruence.
     eapply reach_step; [apply nth_error_snoc_eq|cbn [parents]; now left|constructor].
@@ -1107,43 +1268,49 @@ Proof.
 Qed.
 
 (* MergeLocal puts the clone's tip on top of its tracking ref *)
-Lemma merge_reaches_tracking : forall s c t, wf s -> tracking_of s c = Some t ->
+Lemma merge_reaches_tracking : forall s c cl t b,
+  wf s -> nth_error (clones s) c = Some cl -> tracking cl = Some t -> pending cl = Some b ->
   exists l', local_of (exec s (MergeLocal c)) c = Some l' /\ reach (store_of (exec s (MergeLocal c))) t l'.
 Proof.
-  intros s c t Hwf Ht0. pose proof Hwf as (Hst & Hcl & Hrm & Hfo).
-  unfold tracking_of in Ht0. destruct (nth_error (clones s) c) as [cl|] eqn:Hc; [|discriminate].
+  intros s c cl t b Hwf Hc Ht Hp. pose proof Hwf as (Hst & Hcl & Hrm & Hfo).
   assert (Lc : c < length (clones s)) by (apply nth_error_Some; congruence).
-  destruct (Hcl c cl Hc) as [Vl Vt]. rewrite Ht0 in Vt. cbn [valid_ref] in Vt.
-  cbn [exec]. rewrite Hc, Ht0. destruct (local cl) as [l|] eqn:Hl.
-  - cbn [valid_ref] in Vl. pose proof (merge_local_spec _ l t Hst Vl Vt) as M.
-    destruct (merge_local (store_of s) l t) as [| |nd|]; try contradiction.
-    + exists l. split; [unfold local_of; now rewrite Hc|]. eapply anc_sound; eauto.
-    + exists t. unfold set_clone. cbn [store_of]. rewrite local_of_set, Nat.eqb_refl by auto.
-      split; auto. constructor.
-    + destruct M as [bm [-> _]]. exists (length (store_of s)).
-      unfold set_clone, add_node. cbn [store_of clones remote fuel_out].
-      rewrite local_of_set, Nat.eqb_refl by auto. split; auto.
-      eapply reach_step; [apply nth_error_snoc_eq|cbn [parents]; right; now left|constructor].
-  - exists t. unfold set_clone. cbn [store_of]. rewrite local_of_set, Nat.eqb_refl by auto.
-    split; auto. constructor.
+  destruct (Hcl c cl Hc) as [Vl Vt]. rewrite Ht in Vt. cbn [valid_ref] in Vt.
+  assert (Copy : exists l', local_of (set_clone s c (mkClone (Some t) (Some t) None)) c = Some l' /\
+                            reach (store_of (set_clone s c (mkClone (Some t) (Some t) None))) t l').
+  { exists t. unfold set_clone. cbn [store_of]. rewrite local_of_set, Nat.eqb_refl by auto.
+    split; auto. constructor. }
+  cbn [exec]. rewrite Hc, Hp, Ht. destruct b; [|exact Copy].
+  destruct (local cl) as [l|] eqn:Hl; [|exact Copy].
+  cbn [valid_ref] in Vl. pose proof (merge_local_spec _ l t Hst Vl Vt) as M.
+  destruct (merge_local (store_of s) l t) as [| |nd|]; try contradiction; try exact Copy.
+  - exists l. unfold set_clone. cbn [store_of]. rewrite local_of_set, Nat.eqb_refl by auto.
+    split; auto. eapply anc_sound; eauto.
+  - destruct M as [bm [-> _]]. exists (length (store_of s)).
+    unfold set_clone, add_node. cbn [store_of clones remote fuel_out].
+    rewrite local_of_set, Nat.eqb_refl by auto. split; auto.
+    eapply reach_step; [apply nth_error_snoc_eq|cbn [parents]; right; now left|constructor].
 Qed.
 
 Definition on_top (s : state) (c : nat) (r : nid) : Prop :=
   remote s = Some r /\ exists l, local_of s c = Some l /\ reach (store_of s) r l.
 
-Lemma on_top_run : forall q s c r, wf s -> no_push q = true -> on_top s c r -> on_top (run s q) c r.
+Lemma reach_shape : forall s x s' a b, shape s x s' -> reach (store_of s) a b -> reach (store_of s') a b.
 Proof.
-  induction q as [|x q IH]; intros s c r Hwf Np H; auto.
+  intros s x s' a b Sh Hab. shape_cases Sh; auto; cbn [set_clone add_node set_remote store_of]; auto;
+    now apply reach_snoc.
+Qed.
+
+Lemma on_top_run : forall q s c r, good s -> guarded s q = true -> no_push q = true ->
+  on_top s c r -> on_top (run s q) c r.
+Proof.
+  induction q as [|x q IH]; intros s c r Hg G Np H; auto.
   cbn [no_push forallb] in Np. apply andb_true_iff in Np as [Nx Nq]. apply negb_true_iff in Nx.
-  cbn [run fold_left]. apply IH; auto. { now apply wf_exec. }
+  cbn [guarded] in G. apply andb_true_iff in G as [G1 G2].
+  cbn [run fold_left]. apply IH; auto. { now apply good_exec. }
   destruct H as [Hr [l [Hl Hre]]]. split. { now rewrite remote_no_push. }
-  pose proof (exec_shape s x Hwf) as Sh.
-  destruct (local_reach_shape s x _ c l Hwf Sh Hl) as [l' [Hl' Hre']].
-  exists l'. split; auto. eapply reach_trans; [|exact Hre'].
-  assert (Ext : forall a b, reach (store_of s) a b -> reach (store_of (exec s x)) a b).
-  { intros a b Hab. clear - Sh Hab. shape_cases Sh; auto; cbn [set_clone add_node set_remote store_of]; auto;
-      now apply reach_snoc. }
-  auto.
+  pose proof (exec_shape s x (proj1 Hg)) as Sh.
+  destruct (local_reach_shape s x _ c l Hg Sh Hl) as [l' [Hl' Hre']].
+  exists l'. split; auto. eapply reach_trans; [|exact Hre']. eapply reach_shape; eauto.
 Qed.
 
 Lemma tracking_kept_run : forall q s c r, wf s -> no_push q = true ->
@@ -1165,46 +1332,127 @@ Proof.
   cbn [run fold_left]. apply IH; auto. now rewrite remote_no_push.
 Qed.
 
-(* a push whose pre-push fetch and merge happened with no notes push (by anybody) in between is
-   never rejected, whatever else is interleaved: rejections happen only when pushes overlap *)
+(* a push whose pre-push fetch, test and merge happened with no notes push (by anybody) in between is
+   never rejected, whatever else is interleaved (outside the copy window): rejections happen only
+   when pushes overlap *)
 Lemma no_reject_without_overlap : forall n pre mid1 mid2 c, c < n ->
   no_push mid1 = true -> no_push mid2 = true ->
-  let s := run (init n) (pre ++ [FetchTracking c] ++ mid1 ++ [MergeLocal c] ++ mid2) in
+  guarded (init n) (pre ++ [FetchTracking c] ++ mid1 ++ [TestLocal c; MergeLocal c] ++ mid2) = true ->
+  let s := run (init n) (pre ++ [FetchTracking c] ++ mid1 ++ [TestLocal c; MergeLocal c] ++ mid2) in
   push_outcome s c = PCreated \/ push_outcome s c = PUpdated \/ push_outcome s c = PNoLocal.
 Proof.
-  intros n pre mid1 mid2 c Hc N1 N2 s. fold (S0 n (pre ++ [FetchTracking c] ++ mid1 ++ [MergeLocal c] ++ mid2)) in s.
-  assert (Es : s = run (exec (run (exec (S0 n pre) (FetchTracking c)) mid1) (MergeLocal c)) mid2).
+  intros n pre mid1 mid2 c Hc N1 N2 G s.
+  fold (S0 n (pre ++ [FetchTracking c] ++ mid1 ++ [TestLocal c; MergeLocal c] ++ mid2)) in s.
+  assert (Es : s = run (exec (exec (run (exec (S0 n pre) (FetchTracking c)) mid1) (TestLocal c)) (MergeLocal c)) mid2).
   { unfold s. rewrite S0_app, !run_app. reflexivity. }
+  rewrite !app_assoc in G.
+  apply guarded_S0_app in G as [G G2]. rewrite <- !app_assoc in G2. 
   set (s0 := S0 n pre) in *. assert (W0 : wf s0) by apply wf_S0.
   assert (L0 : c < length (clones s0)) by (unfold s0; now rewrite len_S0).
   set (s1 := exec s0 (FetchTracking c)) in *. assert (W1 : wf s1) by (apply wf_exec; auto).
   set (s2 := run s1 mid1) in *. assert (W2 : wf s2) by (apply wf_run; auto).
-  set (s3 := exec s2 (MergeLocal c)) in *. assert (W3 : wf s3) by (apply wf_exec; auto).
+  set (s2' := exec s2 (TestLocal c)) in *. assert (W2' : wf s2') by (apply wf_exec; auto).
+  set (s3 := exec s2' (MergeLocal c)) in *. assert (W3 : wf s3) by (apply wf_exec; auto).
+  assert (G3 : good s3).
+  { replace s3 with (S0 n ((((pre ++ [FetchTracking c]) ++ mid1) ++ [TestLocal c]) ++ [MergeLocal c])).
+    - apply good_S0. rewrite <- !app_assoc in *. exact G.
+    - rewrite !S0_app. reflexivity. }
+  assert (G2' : guarded s3 mid2 = true).
+  { replace s3 with (S0 n ((((pre ++ [FetchTracking c]) ++ mid1) ++ [TestLocal c]) ++ [MergeLocal c])).
+    - rewrite <- !app_assoc in *. exact G2.
+    - rewrite !S0_app. reflexivity. }
   assert (Ws : wf s) by (rewrite Es; apply wf_run; auto).
   assert (Ls : c < length (clones s)) by (unfold s; now rewrite len_S0).
   destruct (nth_error (clones s) c) as [cl|] eqn:Hcl. 2: { apply nth_error_None in Hcl. lia. }
   unfold push_outcome. rewrite Hcl. destruct (local cl) as [l|] eqn:Hl; auto.
   destruct (remote s0) as [r|] eqn:Hr0.
-  - (* the remote has notes: tracking = r until the merge, then the tip stays on top of r *)
-    assert (T1 : remote s1 = Some r /\ tracking_of s1 c = Some r).
+  - assert (T1 : remote s1 = Some r /\ tracking_of s1 c = Some r).
     { unfold s1. cbn [exec]. destruct (nth_error (clones s0) c) as [cl0|] eqn:Hc0.
       2: { apply nth_error_None in Hc0. lia. }
       rewrite Hr0. unfold set_clone. cbn [remote]. split; auto.
       rewrite tracking_of_set, Nat.eqb_refl by auto. reflexivity. }
     destruct T1 as [R1 T1].
     destruct (tracking_kept_run mid1 s1 c r W1 N1 R1 T1) as [R2 T2]. fold s2 in R2, T2.
-    destruct (merge_reaches_tracking s2 c r W2 T2) as [l3 [Hl3 Re3]]. fold s3 in Hl3, Re3.
+    assert (L2 : c < length (clones s2)) by (unfold s2, s1; now rewrite clones_length_run, clones_length_exec).
+    unfold tracking_of in T2. destruct (nth_error (clones s2) c) as [cl2|] eqn:Hc2; [|discriminate].
+    assert (N2' : nth_error (clones s2') c = Some (mkClone (local cl2) (tracking cl2) (Some (is_some (local cl2))))).
+    { unfold s2'. cbn [exec]. rewrite Hc2. unfold set_clone. now apply nth_clone_set. }
+    destruct (merge_reaches_tracking s2' c _ r _ W2' N2' T2 eq_refl) as [l3 [Hl3 Re3]]. fold s3 in Hl3, Re3.
     assert (OT : on_top s3 c r).
-    { split; [unfold s3; now rewrite remote_MergeLocal|]. exists l3. auto. }
-    apply (on_top_run mid2 s3 c r W3 N2) in OT. rewrite <- Es in OT.
+    { split; [unfold s3, s2'; now rewrite remote_MergeLocal, remote_TestLocal|]. exists l3. auto. }
+    apply (on_top_run mid2 s3 c r G3 G2' N2) in OT. rewrite <- Es in OT.
     destruct OT as [Rs [l' [Hl' Re']]]. rewrite Rs.
     unfold local_of in Hl'. rewrite Hcl, Hl in Hl'. inversion Hl'. subst l'.
     destruct Ws as (Hst & Hcv & _). destruct (Hcv c cl Hcl) as [Vl _]. rewrite Hl in Vl. cbn [valid_ref] in Vl.
     rewrite (anc_complete _ r l Hst Re' _ Vl). auto.
   - assert (Rs : remote s = None).
-    { rewrite Es. apply remote_none_run; auto. unfold s3. rewrite remote_MergeLocal.
+    { rewrite Es. apply remote_none_run; auto. unfold s3, s2'. rewrite remote_MergeLocal, remote_TestLocal.
       apply remote_none_run; auto. unfold s1. now rewrite remote_no_push. }
     rewrite Rs. auto.
+Qed.
+
+(* ------------------------------------------------------------------ a commit while the sync's fetch is in flight *)
+Lemma pending_FetchTracking : forall s c c', pending_of (exec s (FetchTracking c)) c' = pending_of s c'.
+Proof.
+  intros. cbn [exec]. destruct (nth_error (clones s) c) as [cl|] eqn:Hc; auto.
+  destruct (remote s); auto. unfold pending_of, set_clone. cbn [clones].
+  destruct (Nat.eq_dec c c') as [->|Ne].
+  - rewrite nth_set_same by (apply nth_error_Some; congruence). now rewrite Hc.
+  - now rewrite nth_set_other.
+Qed.
+
+Lemma commit_then_keys : forall n pre c k v b, c < n ->
+  guarded (init n) pre = true ->
+  (pending_of (S0 n pre) c = Some false -> False) ->
+  no_commit b = true ->
+  guarded (init n) (pre ++ [Commit c k v] ++ b) = true /\
+  has_key k (local_map (S0 n (pre ++ [Commit c k v] ++ b)) c) = true.
+Proof.
+  intros n pre c k v b Hc G P Nb.
+  assert (G1 : guarded (init n) (pre ++ [Commit c k v]) = true).
+  { apply guarded_S0_app. split; auto. cbn [guarded guard].
+    destruct (pending_of (S0 n pre) c) as [[|]|]; auto. }
+  assert (G2 : guarded (init n) ((pre ++ [Commit c k v]) ++ b) = true) by (now apply guarded_ext).
+  rewrite app_assoc. split; auto.
+  apply no_loss_local_keys; auto.
+  rewrite S0_app. cbn [run fold_left exec].
+  destruct (nth_error (clones (S0 n pre)) c) as [cl|] eqn:E.
+  2: { apply nth_error_None in E. rewrite len_S0 in E. lia. }
+  unfold has_key, local_map, set_clone, add_node. cbn [store_of clones remote fuel_out].
+  rewrite local_of_set by (rewrite len_S0; auto). rewrite Nat.eqb_refl. cbn [local map_of].
+  rewrite map_at_snoc_eq. cbn [notes]. rewrite lookup_upsert. now rewrite N.eqb_refl.
+Qed.
+
+(* in the code's order a commit of the SAME clone landing before or right after the fetch of its
+   own push / fetch (the long window: the fetch is on the wire) is outside the copy window and
+   its note is kept.  This is the statement that fails when the existence test is hoisted above
+   the fetch (the block equations of Gen/GenSync.v change). *)
+Lemma commit_during_sync_safe : forall n pre c k v, c < n ->
+  guarded (init n) pre = true -> pending_of (run (init n) pre) c = None ->
+  forall blk, In blk [PushNotes_commit_on_wire c k v; PushNotes_commit_after_fetch c k v;
+                      FetchNotes_commit_on_wire c k v; FetchNotes_commit_after_fetch c k v] ->
+  no_commit_in_copy_window n (pre ++ blk) = true /\
+  has_key k (local_map (run (init n) (pre ++ blk)) c) = true.
+Proof.
+  intros n pre c k v Hc G P blk Hb. unfold no_commit_in_copy_window. fold (S0 n pre) in P. fold (S0 n (pre ++ blk)).
+  assert (OnWire : forall b, no_commit b = true ->
+            guarded (init n) (pre ++ Commit c k v :: b) = true /\
+            has_key k (local_map (S0 n (pre ++ Commit c k v :: b)) c) = true).
+  { intros b Nb. apply (commit_then_keys n pre c k v b Hc G); auto. rewrite P. discriminate. }
+  assert (After : forall b, no_commit b = true ->
+            guarded (init n) (pre ++ FetchTracking c :: Commit c k v :: b) = true /\
+            has_key k (local_map (S0 n (pre ++ FetchTracking c :: Commit c k v :: b)) c) = true).
+  { intros b Nb.
+    replace (pre ++ FetchTracking c :: Commit c k v :: b) with ((pre ++ [FetchTracking c]) ++ [Commit c k v] ++ b)
+      by (now rewrite <- app_assoc).
+    apply commit_then_keys; auto.
+    - now apply guarded_ext.
+    - rewrite S0_app. cbn [run fold_left]. rewrite pending_FetchTracking, P. discriminate. }
+  cbn [In] in Hb. destruct Hb as [<-|[<-|[<-|[<-|[]]]]].
+  - rewrite PushNotes_commit_on_wire_eq. now apply OnWire.
+  - rewrite PushNotes_commit_after_fetch_eq. now apply After.
+  - rewrite FetchNotes_commit_on_wire_eq. now apply OnWire.
+  - rewrite FetchNotes_commit_after_fetch_eq. now apply After.
 Qed.
 
 (* ------------------------------------------------------------------ packaged statements *)
@@ -1213,14 +1461,14 @@ Lemma no_loss : forall (n : nat) (sched : list step),
      lookup k (map_of (store_of (run (init n) sched)) o) = Some v -> written n sched k v) /\
   (forall pre post k, sched = pre ++ post ->
      has_key k (remote_map (run (init n) pre)) = true -> has_key k (remote_map (run (init n) sched)) = true) /\
-  (forall pre post c k, sched = pre ++ post ->
+  (no_commit_in_copy_window n sched = true -> forall pre post c k, sched = pre ++ post ->
      has_key k (local_map (run (init n) pre) c) = true -> has_key k (local_map (run (init n) sched) c) = true) /\
   fuel_out (run (init n) sched) = false.
 Proof.
   intros n sched. split; [|split; [|split]].
   - exact (no_loss_values n sched).
   - intros pre post k ->. exact (no_loss_remote_keys n pre post k).
-  - intros pre post c k ->. exact (no_loss_local_keys n pre post c k).
+  - intros G pre post c k ->. exact (no_loss_local_keys n pre post c k G).
   - exact (fuel_never_out n sched).
 Qed.
 
